@@ -1759,6 +1759,7 @@ Proof.
   - destruct (enabled_tick s); [|split; [assumption|apply sgrow_refl]].
     destruct (sn_step_tick s) as [-> ->]. split; [assumption|apply sgrow_refl].
   - destruct (sn_step_run s seen end_) as [-> ->]. split; [assumption|apply sgrow_refl].
+  - split; [assumption|apply sgrow_refl].
 Qed.
 
 Lemma bounded_back st st' : sgrow st st' -> boundedS st' -> boundedS st.
@@ -1784,6 +1785,7 @@ Proof.
   - now apply inv_tick_begin.
   - now apply inv_tick.
   - now apply inv_run.
+  - exact H.
 Qed.
 
 Lemma wf_events_wf1 s e es : wf_events sc ln s (e :: es) -> wf1 s e /\ wf_events sc ln (do_event sc ln s e) es.
